@@ -34,6 +34,21 @@ def enable_compile_cache() -> None:
         pass
 
 
+def release_compiled_code() -> None:
+    """Long batches compile thousands of XLA executables per process; the JIT'ed code sections are never unmapped and
+    LLVM eventually fails with 'Unable to allocate section memory'. Dropping JAX's in-process caches releases them
+    (results are unaffected: everything is recompiled on demand, the on-disk compile cache of this invocation stays)."""
+    try:
+        import gc
+
+        import jax
+
+        jax.clear_caches()
+        gc.collect()
+    except Exception:
+        pass
+
+
 def load_engine(name: str):
     return importlib.import_module(f"sim.engines.{name}")
 
@@ -100,10 +115,13 @@ def main() -> int:
             }
             explicit = batch.get("indices")
             indices = explicit if explicit is not None else range(widx, n_runs, nworkers)
+            clear_every = int(batch.get("clear_caches_every", 60 if batch["engine"] in ("e2_train", "e4_lifecycle") else 400))
             for i in indices:
                 if time.time() - t0 > budget:
                     agg["truncated"] = True
                     break
+                if agg["runs"] and agg["runs"] % clear_every == 0:
+                    release_compiled_code()
                 seed = derive_seed(master, batch["engine"], batch.get("label", ""), i)
                 rng = make_rng(seed)
                 plan = engine.gen_plan(rng, dict(profile, _index=i), seed)
